@@ -119,6 +119,16 @@ def families():
             t.append("ldi r16, " + ch + "+(" * n + "1" + ")" * n + "\n")
             t.append(".db " + ch + ", " + "-(1+" * n + "1" + ")" * n + "\n")
         t.append(".db \"" + "(" * n + "\", " + "(" * n + "1" + ")" * n + "\n")
+    # literals no 64-bit value can hold, in every radix, also where the line is not assembled
+    for lit_ in ("0x8000000000000000", "0xFFFFFFFFFFFFFFFFF", "$ffffffffffffffff", "9223372036854775808", "99999999999999999999999999", "0b1" + "0" * 63, "0b" + "1" * 80,
+                 "01000000000000000000000", "07777777777777777777777", "0777777777777777777777777777", "0" * 40 + "7" * 30):
+        for ctx in ("ldi r16, %s\n", ".dw %s\n", ".equ big = %s\n.dw 1\n", ".if %s\nnop\n.endif\n", ".if 0\n.dw %s\n.endif\n", ".macro m\n.dw %s\n.endm\nnop\n",
+                    ".macro m\n.dw @0\n.endm\nm %s\n", ".org %s\n", ".dseg\n.byte %s\n", "ldd r0, Y+%s\n", ".if 1\n.elif %s\n.endif\n", ".db -%s, low(%s)\n".replace("%s)", "%s)")):
+            t.append(ctx.replace("%s", lit_))
+    for n in (100, 300, 1000, 2500, 10000):
+        # chains of definitions that go through a function, a prefix operator, parentheses
+        for wrap in ("lwrd(a%d)+1", "-(a%d)", "(a%d)", "~a%d", "low(a%d+1)", "1+high(a%d)*2", "exp2(a%d & 3)"):
+            t.append("ldi r16, low(a0)\n" + "".join(".equ a%d = %s\n" % (i, wrap % (i + 1)) for i in range(n)) + ".equ a%d = 1\n" % n)
     for n in (100, 300, 1000, 3000, 10000):
         # chains of definitions, defined before and after use, written in lower, upper and mixed case
         t.append(".equ a0 = 1\n" + "".join(".equ a%d = a%d+1\n" % (i + 1, i) for i in range(n)) + "ldi r16, low(a%d)\n" % n)
